@@ -5,6 +5,7 @@ import (
 	_ "verif/h/c01"
 	_ "verif/h/c03"
 	_ "verif/h/c04"
+	_ "verif/h/c05"
 	_ "verif/h/c06"
 	_ "verif/h/c07"
 	_ "verif/h/c08"
